@@ -180,6 +180,11 @@ def r2_visitors(ctx):
         okm = okm and apps == ([f'self.metacomments.append({nd}.token)'] if isit and ats else ([] if ats else apps))
         if not ats:
             okm = False
+    # a query leaves nothing behind for the next query (a memo keyed by the filter alone is shared by the full and the unique listing)
+    from . import shared
+    shared.effect_free(ctx, 'R6', [f'{N.DOCUMENT}.Document.get_all_tokens', f'{N.DOCUMENT}.Document.get_unique_tokens',
+                                   f'{N.DOCUMENT}.Document.frequencies'],
+                       'the answer of a token query must not depend on the queries made before it')
     # the comment visitor selects by CLASS: nothing else the importer builds may be an instance of that class
     mc_ = ctx.prog.cls(f'{N.TOKENS}.MetacommentToken')
     subs_ = [c_ for c_ in ctx.prog.subclasses(mc_, strict=True)]
